@@ -286,7 +286,7 @@ def apply_gate_cases(ctx, quick, n_cases=None, seeds=None):
     import sys, os
     sys.path.insert(0, os.path.join(vlib.VERIF, 'tools', 'checks'))
     import C07
-    n_cases = n_cases or (140 if quick else 1500)
+    n_cases = n_cases or (200 if quick else 1500)
     for rep in range(n_cases):
         sd = seeds[rep] if seeds is not None else ctx.rng.randrange(2 ** 31)
         rng = random.Random(sd)
@@ -303,7 +303,7 @@ def apply_gate_cases(ctx, quick, n_cases=None, seeds=None):
         pool = C07.op_pool(fam, ops, rng)
         names = sorted(pool)
         I = ops.I()
-        purification = rng.random() < 0.5
+        purification = rng.random() < 0.4
         # initial state and its 1D reference
         if purification:
             psi = fpeps.product_peps(geometry, I)
@@ -333,7 +333,14 @@ def apply_gate_cases(ctx, quick, n_cases=None, seeds=None):
             else:
                 L = rng.choice([2, 3, 3, 3, 4]) if N >= 3 else 2
                 L = min(L, N)
-                path = random_path(rng, geometry, L)
+                # a TWO-tensor gate carried along a longer path (identities with strings filled in by apply_gate_)
+                stretched = N >= 3 and rng.random() < 0.4
+                Lpath = min(N, rng.choice([3, 4, 4, 5, 5])) if stretched else L
+                if stretched:
+                    L = 2
+                path = random_path(rng, geometry, Lpath)
+                if path is None and stretched:
+                    path = random_path(rng, geometry, 3)
                 if path is None:
                     ctx.count('apply_gate:skipped(no path)')
                     ok = False; break
@@ -355,7 +362,7 @@ def apply_gate_cases(ctx, quick, n_cases=None, seeds=None):
                         continue
                     amp = complex(rng.uniform(-1, 1), rng.uniform(-1, 1)) if rng.random() < 0.3 else rng.uniform(-1, 1)
                     terms_small.append(mps.Hterm(amp, tuple(pos), tuple(opsl)))
-                    terms_big.append(mps.Hterm(amp, tuple(s2i[path[p]] for p in pos), tuple(opsl)))
+                    terms_big.append(mps.Hterm(amp, tuple(s2i[path[-1 if (stretched and p == 1) else p]] for p in pos), tuple(opsl)))
                 terms_small.append(mps.Hterm(1.0, (0,), (I,)))
                 terms_big.append(mps.Hterm(1.0, (0,), (I,)))
                 try:
@@ -367,7 +374,7 @@ def apply_gate_cases(ctx, quick, n_cases=None, seeds=None):
                 fac = rng.choice([1.0, 1.0, 2.5, -0.5])
                 Osmall = fac * Osmall
                 Obig = fac * Obig
-                glist.append(('mpo%d' % L, fpeps.Gate(Osmall, path), Obig))
+                glist.append((('mpo2-along-%d' % len(path)) if stretched else ('mpo%d' % L), fpeps.Gate(Osmall, path), Obig))
         if not ok or not glist:
             continue
         desc = dict(kind='apply_gate', family=fam, sym=sym, dims=(geometry.Nx, geometry.Ny), boundary=boundary, purification=purification, gates=[g[0] for g in glist],
